@@ -10,7 +10,7 @@ from vlib.defs import render_item
 
 ID = "C09"
 # look-alikes of prelude names (vlib/defs.py HOSTILE) this check's derives are immune to on the unchanged tree
-HOSTILE_OK = ['From', 'Option', 'Some', 'Ok', 'Iterator', 'Clone', 'AsRef', 'Send', 'PhantomData', 'IterGet', 'm_matches', 'm_assert', 'm_fmt', 'c_binders', 'no_implicit_prelude']
+HOSTILE_OK = ['From', 'Option', 'Some', 'Ok', 'Iterator', 'Clone', 'AsRef', 'Send', 'PhantomData', 'IterGet', 'm_matches', 'm_assert', 'm_fmt', 'c_binders', 'no_implicit_prelude', 'ByValue']
 PROP_FILE = "Props/C09.v"
 RULE = ("enums x kinds x type/const/lifetime generics and where-clauses x #[repr(int)] x explicit discriminants (also on "
         "data-carrying variants under a repr) x strum_discriminants(name(..), vis(..), derive(Hash, PartialOrd, Ord, EnumIter, "
